@@ -229,6 +229,45 @@ pub struct GlobRt {
     pub programs: Vec<regex::Regex>,
     /// invariant prefix as text ("" when none)
     pub prefix: String,
+    /// the leading components of the expression that are plain: no tree wildcard and no branch
+    /// that spans a separator (flags stripped) — the components for which "a glob's component
+    /// cannot match a directory" has an unambiguous meaning
+    pub plain_components: Vec<Expr>,
+}
+
+/// leading plain components of an expression (see `GlobRt::plain_components`)
+pub fn plain_components(e: &Expr) -> Vec<Expr> {
+    let e = strip_flags(e);
+    let mut out: Vec<Expr> = Vec::new();
+    let mut cur: Expr = Vec::new();
+    for t in e.iter() {
+        match t {
+            Tok::Sep => out.push(std::mem::take(&mut cur)),
+            Tok::Tree { .. } => return out,
+            t if t.is_branch() && any_tok(&vec![t.clone()], &|x, _| matches!(x, Tok::Sep | Tok::Tree { .. })) => return out,
+            t => cur.push(t.clone()),
+        }
+    }
+    out.push(cur);
+    out
+}
+
+/// C13, first sentence: a directory whose name the glob's component at that position cannot match
+/// is discarded as a tree.  `Some(j)`: component `j` (plain, by the documented semantics) rejects
+/// the directory's own name.
+pub fn component_cannot_match(g: &GlobRt, rel: &str) -> Option<usize> {
+    let comps: Vec<&str> = rel.split('/').filter(|c| !c.is_empty()).collect();
+    let j = comps.len().checked_sub(1)?;
+    let ce = g.plain_components.get(j)?;
+    if ce.is_empty() {
+        return None;
+    }
+    if crate::refmatch::verdict(ce, comps[j]) == crate::refmatch::Verdict::MustReject {
+        Some(j)
+    }
+    else {
+        None
+    }
 }
 
 pub fn prepare_glob(under: &Under) -> Option<Option<GlobRt>> {
@@ -243,7 +282,8 @@ pub fn prepare_glob(under: &Under) -> Option<Option<GlobRt>> {
             let programs = g.verif_walk_component_patterns().iter().filter_map(|p| regex::Regex::new(p).ok()).collect();
             let (pre, _) = g.clone().partition();
             let prefix = pre.to_string_lossy().trim_end_matches('/').to_string();
-            Some(Some(GlobRt { glob: g, programs, prefix }))
+            let plain_components = plain_components(&expr);
+            Some(Some(GlobRt { glob: g, programs, prefix, plain_components }))
         },
     }
 }
@@ -299,7 +339,7 @@ fn is_beneath(dir: &str, rel: &str) -> bool {
 /// Derive the observed pruning and validate it against the reference entries:
 /// every entry that is not fed must lie beneath a fed directory *all* of whose descendants are
 /// absent (a pruned tree), and no pruned tree may contain a path the glob matches.
-pub fn observe(entries: &[(String, bool)], glob: &GlobRt, fed: BTreeSet<String>, yielded: BTreeSet<String>) -> Result<Observed, String> {
+pub fn observe(entries: &[(String, bool)], glob: &GlobRt, fed: BTreeSet<String>, yielded: BTreeSet<String>, enforce_component_discard: bool) -> Result<Observed, String> {
     let mut pruned = BTreeSet::new();
     for (rel, is_dir) in entries {
         if *is_dir && fed.contains(rel) {
@@ -331,6 +371,21 @@ pub fn observe(entries: &[(String, bool)], glob: &GlobRt, fed: BTreeSet<String>,
                     "glob `{}`: the tree of {:?} is skipped although it contains the matching path {:?}",
                     glob.glob, d, rel
                 ));
+            }
+        }
+    }
+    // "because a glob's component cannot match it": a fed directory whose own name is rejected by
+    // the plain component at its position must be discarded as a tree — nothing beneath it is fed
+    // (enforced by C13 only; C16 and C20 take the pruning as observed)
+    for (rel, is_dir) in entries {
+        if enforce_component_discard && *is_dir && fed.contains(rel) {
+            if let Some(j) = component_cannot_match(glob, rel) {
+                if let Some((d, _)) = entries.iter().find(|(d, _)| is_beneath(rel, d) && fed.contains(d)) {
+                    return Err(format!(
+                        "glob `{}`: component {} cannot match the directory {:?}, yet it is not discarded as a tree: {:?} beneath it is produced downstream",
+                        glob.glob, j, rel, d
+                    ));
+                }
             }
         }
     }
